@@ -25,7 +25,12 @@ Soundness decisions (the weaker reading wherever the statement leaves room):
   which every character's encoded length equals its column width (DESIGN 2.5: urwid defines wide
   mode as "two bytes = two columns"; half-width katakana, 3-byte EUC, lone lead bytes are the
   caller's problem).  For other byte strings only the mode-independent facts are asserted
-  (no exception, width == byte count and additive, calc_text_pos stays in range and <= target);
+  (no exception, width == byte count and additive, calc_text_pos stays in range and <= target; stepping, between
+  every two boundaries of the oracle's reading in which a lead byte without a second half is a character of its own:
+  move_next_char / move_prev_char move one or two bytes and stay inside the range, the character before end_offs is
+  the one calc_text_pos finds for the last column, next-then-previous returns to the start and previous-then-next
+  does not stop short of end_offs).  No parse is presumed there: each of these holds for whatever pairing of the bytes
+  as long as n bytes are n columns;
 * encoding selection histories (enchist): the expected mode of a name comes from the manual's list, not from
   urwid; a raw set_byte_encoding leaves codec and DEC translation unasserted until the next set_encoding;
   set_temporary_encoding (restores by name) is entered only from states a name alone reproduces;
@@ -58,8 +63,13 @@ RULE = (
     "combining, emoji, ZWJ, control, truncated / stray / overlong UTF-8, GBK/EUC/Big5 lead+trail "
     "variants, lone lead bytes) x every (start,end) on character boundaries x every target column / "
     "column range for calc_width (oracle + additivity), calc_text_pos, move_next/prev_char (+ round "
-    "trip), is_wide_char, calc_trim_text, trim_text_attr_cs, and str<->bytes agreement; long: Hypothesis "
-    "strings of <=24 units with sampled probes; dec: apply_target_encoding on every DEC special "
+    "trip), is_wide_char, calc_trim_text, trim_text_attr_cs, and str<->bytes agreement; wide-mode byte strings that are "
+    "not valid text of the codec (lone / truncated lead bytes anywhere incl. the end, lead + a byte that is no second "
+    "half: bytes2, short, long) get the parse-independent clauses only: width == byte count, calc_text_pos in range, and "
+    "for every range between boundaries of the oracle's reading: steps of one or two bytes inside the range, "
+    "move_prev_char == calc_text_pos of the last column, next/previous inverse of each other in both directions; "
+    "long: Hypothesis strings of <=24 units with sampled probes (one alternative splices one or two invalid-making "
+    "units into wide text); dec: apply_target_encoding on every DEC special "
     "character alone, in every pair with 8 neighbours, and every string of <=4 units over a 7-unit "
     "alphabet, in utf-8, wide and narrow. enchist: histories of encoding-selection calls - set_encoding(name) for "
     "every name of docs/manual/encodings.rst (UTF-8, the ten double-byte names and their unhyphenated / alias forms, "
@@ -76,7 +86,9 @@ ASSUMPTIONS = [
     "the wcwidth table (clamped to >= 0) is the Unicode width table; Python's codecs define valid text",
     "offsets passed to the functions lie on character boundaries (callers' contract)",
     "invalid UTF-8 is limited to truncated sequences, stray continuation bytes and overlong forms",
-    "wide mode is asserted strictly only for valid text whose characters have encoded length == width",
+    "wide mode is asserted strictly only for valid text whose characters have encoded length == width; for other byte "
+    "strings (lone lead bytes ...) the offsets passed are the boundaries of the reading 'a byte >= 0x81 followed by a "
+    "byte >= 0x40 is one character, every other byte is one', and only clauses that hold for any pairing are asserted",
     "calc_trim_text is called with 0 <= start_col < end_col <= width of the range, or (0, 0)",
     "user text passed to apply_target_encoding contains no raw SO/SI control characters",
     "encoding names: letter case is not significant (manual: set_encoding('UTF-8'); the locale module reports upper "
@@ -420,6 +432,65 @@ def _check_text_weak(text, ctxs):
         str_util.is_wide_char(text, 0)
         str_util.move_next_char(text, 0, n)
         str_util.move_prev_char(text, 0, n)
+    _check_steps_weak(text, ctxs)
+
+
+def _unpaired_lead(text, s, e):
+    """text[s] is a high byte with no second half inside s..e: the range ends after it, or the next byte is none of
+    the second halves within_double_byte documents (>= 0x80; 0x40..0x7E after a byte >= 0x81).  Only used to tell the
+    listed move_next_char finding from every other stepping disagreement, never as an expectation."""
+    if text[s] < 0x80:
+        return False
+    if s + 1 >= e:
+        return True
+    v = text[s + 1]
+    return not (v >= 0x80 or (0x40 <= v <= 0x7E and text[s] >= 0x81))
+
+
+def _check_steps_weak(text, ctxs):
+    """Stepping in wide-mode text that is not valid text of the codec (lone / truncated lead bytes, bytes that
+    cannot be a second half).  No parse is presumed; asserted is only what "n bytes = n columns" implies for any
+    parse, between every two boundaries of the oracle's reading (a lead byte without a second half is one character):
+    a step moves one or two bytes and stays inside the range; the character before end_offs is the one
+    calc_text_pos finds for the last column of the range; next and previous agree with each other in both
+    directions.  All move_prev_char clauses come first, so that the listed move_next_char finding hides none."""
+    B = widths.boundaries(text, "wide")
+    pairs = [(s, e) for s in B for e in B if s < e]
+    nxt, prv, tpos = str_util.move_next_char, str_util.move_prev_char, str_util.calc_text_pos
+    for s, e in pairs:
+        p = prv(text, s, e)
+        if not (s <= p < e and e - p <= 2):
+            raise Violation(
+                "weak-step-range", f"{ctxs}: move_prev_char(text, {s}, {e}) = {p}: not one or two bytes back inside the range"
+            )
+        # every character is as many columns as bytes, so the character before end_offs holds the last column
+        tp = tpos(text, s, e, e - s - 1)
+        if tp[0] != p:
+            raise Violation(
+                "weak-prev-text-pos",
+                f"{ctxs}: move_prev_char(text, {s}, {e}) = {p} but calc_text_pos(text, {s}, {e}, {e - s - 1}) = {tuple(tp)!r}: "
+                f"the character before end_offs is not the one that holds the last column of the range",
+            )
+        q = nxt(text, p, e)
+        if q < e:
+            raise Violation(
+                "weak-prev-next",
+                f"{ctxs}: move_prev_char(text, {s}, {e}) = {p} but move_next_char(text, {p}, {e}) = {q}: one step back "
+                f"passed more than one character",
+            )
+    for s, e in pairs:
+        q = nxt(text, s, e)
+        if not (s < q <= e and q - s <= 2):
+            clause = "weak-next-unpaired-lead" if _unpaired_lead(text, s, e) else "weak-step-range"
+            raise Violation(
+                clause, f"{ctxs}: move_next_char(text, {s}, {e}) = {q}: not one or two bytes forward inside the range"
+            )
+        back = prv(text, s, q)
+        if back != s:
+            clause = "weak-next-unpaired-lead" if _unpaired_lead(text, s, e) else "weak-round-trip"
+            raise Violation(
+                clause, f"{ctxs}: move_prev_char(text, {s}, move_next_char(text, {s}, {e})={q}) = {back}, not {s}"
+            )
 
 
 def _strictness(text, mode, enc):
@@ -1143,7 +1214,29 @@ _long_wide = st.fixed_dictionaries(
 _long_narrow = st.fixed_dictionaries(
     {"enc": st.sampled_from(NARROW_CODECS), "hex": st.binary(min_size=3, max_size=24).map(bytes.hex), "probes": _probe}
 )
-_long_case = st.one_of(_long_u8_str, _long_u8_bytes, _long_u8_bytes, _long_wide, _long_wide, _long_narrow)
+# wide text made invalid by one or two units: a lone lead byte (the truncated double-byte character, anywhere incl. the
+# end of the text), a lead byte followed by a byte that is no second half, a digit; measured weakly (_check_text_weak)
+_wide_bad_unit = st.one_of(
+    st.sampled_from(WIDE_BAD_UNITS),
+    st.integers(0x81, 0xFE).map(lambda v: bytes([v])),
+    st.tuples(st.integers(0x81, 0xFE), st.integers(0x20, 0x3F)).map(bytes),
+)
+
+
+def _splice(t):
+    units, bad = list(t[0]), t[1]
+    for k, (pos, u) in enumerate(bad):
+        units.insert(pos % (len(units) + 1) if k else len(units) - pos % 2, u)  # the first one at / next to the end
+    return b"".join(units).hex()
+
+
+_long_wide_bad = st.fixed_dictionaries(
+    {"enc": st.sampled_from(["gbk", "euc-jp", "big5", "euc-kr"]),
+     "hex": st.tuples(st.lists(_wide_unit, min_size=1, max_size=12),
+                      st.lists(st.tuples(st.integers(0, 12), _wide_bad_unit), min_size=1, max_size=2)).map(_splice),
+     "probes": _probe}
+)
+_long_case = st.one_of(_long_u8_str, _long_u8_bytes, _long_u8_bytes, _long_wide, _long_wide, _long_narrow, _long_wide_bad)
 
 _dec_long = st.fixed_dictionaries(
     {"enc": st.sampled_from(DEC_ENCS),
@@ -1286,7 +1379,25 @@ def _known_beyond_unicode(sub, case, v):
     )
 
 
+def _known_wide_next_unpaired(sub, case, v):
+    """move_next_char (wide) takes every byte >= 0x80 for the first half of a double-byte character without looking
+    whether a second half follows inside the range: on a lone / truncated lead byte it steps two bytes - past end_offs
+    when the lead byte is the last byte of the range (move_next_char(bytes.fromhex('b0'), 0, 1) == 2), over a byte that
+    move_prev_char, calc_text_pos and within_double_byte count as a character of its own otherwise
+    (move_next_char(bytes.fromhex('b031'), 0, 2) == 2, move_prev_char(.., 0, 2) == 1).  The clause is raised only
+    for that shape of the stepped range (_unpaired_lead, judged where the range is known) and only for text that is
+    not valid text of the codec; here: such a text with a high byte in it."""
+    if v.clause != "weak-next-unpaired-lead" or not isinstance(case, dict) or "hex" not in case:
+        return False
+    enc = case.get("enc")
+    if sub not in ("bytes2", "short", "long") or enc not in WIDE_CODECS:
+        return False
+    text = bytes.fromhex(case["hex"])
+    return not valid_wide(text, enc) and any(v >= 0x80 for v in text)
+
+
 KNOWN = {
+    "C11-wide-move-next-unpaired-lead": _known_wide_next_unpaired,
     "C11-utf8-above-10ffff-valueerror": _known_beyond_unicode,
     "C11-utf8-step-invalid-sequences": _known_step_invalid,
     "C11-utf8-move-prev-underrun": _known_prev_underrun,
